@@ -7,6 +7,13 @@
   reordering threshold, context flag unchanged).
 -/
 import DDProofs.Total
+import DDProofs.ReachTotal
+import DDProofs.Reach
+import DDProofs.DynRejectedExpr
+import DDProofs.DynExample
+import DDProofs.RejectedOrder
+import DDProps.C14
+import DD.Dump
 namespace DD
 
 /-- C17 (ITE): arbitrary integers as operands — unknown nodes included — never damage the
@@ -46,5 +53,337 @@ example : (match (apply "nand" 1 (some 1) none ({} : Mgr)).1 with
     | .error .value => true | _ => false) = true := by decide
 
 example : Kept ({} : Mgr) (ite 7 1 (-1) {}).2 := C17_ite {} Inv.init rfl 7 1 (-1)
+
+/-! ## the remaining decorated operations, dynamic reordering NOT enabled
+
+`Kept` for ARBITRARY arguments (DDProofs.ReachTotal); `C17_error_then_normal` (DDProps.Histories)
+is the every-history form. -/
+
+/-- C17 (reordering off): `var` with any name, `quantify` / `cofactor` / `compose` / `rename` /
+`let` with any node and any dictionary (undeclared names, unknown levels, unknown nodes), `apply`
+with any operator string, arity and operands (quantifier aliases included) -/
+theorem C17_ops_off (m : Mgr) (ext : Nat → Nat) (hI : Inv m) (hr : RefExact m ext)
+    (hoff : m.lastLen = none) :
+    (∀ name, Kept m (var name m).2) ∧
+    (∀ u qvars fa, Kept m (quantify u qvars fa m).2) ∧
+    (∀ u values, Kept m (cofactor u values m).2) ∧
+    (∀ f varSub, Kept m (compose f varSub m).2) ∧
+    (∀ u dvars, Kept m (rename u dvars m).2) ∧
+    (∀ d u, Kept m (letOp d u m).2) ∧
+    (∀ op u v w, Kept m (apply op u v w m).2) :=
+  ⟨fun name => var_total m ext hI hr hoff name,
+   fun u q fa => quantify_total m ext hI hr hoff u q fa,
+   fun u vs => cofactor_total m ext hI hr hoff u vs,
+   fun f vs => compose_total m ext hI hr hoff f vs,
+   fun u d => rename_total m ext hI hr hoff u d,
+   fun d u => letOp_total m ext hI hr hoff d u,
+   fun op u v w => apply_total' m ext hI hr hoff op u v w⟩
+
+/-- C17 (syntax error, undeclared variable, unknown `@n`; reordering off): `add_expr` on ANY
+text — the sub-formulas reduced before the error is detected have been evaluated, so nodes may
+have been added, nothing else: never the internal signal, `Kept`, counts exact for the ledger
+they were exact for -/
+theorem C17_add_expr (m : Mgr) (hI : Inv m) (hoff : m.lastLen = none) (s : String) :
+    (addExpr s m).1 ≠ .error .needsReordering ∧ Kept m (addExpr s m).2 ∧
+      RefKeep m (addExpr s m).2 :=
+  addExpr_total_off m hI hoff s
+
+/-- a syntax error after a complete sub-formula, on the example manager (a, b; nodes 2, 3, 4) -/
+example : (raisedErr (addExpr "a /\\ b /\\" exM).1).isSome = true := by
+  decide +kernel
+
+/-! ## dynamic reordering ENABLED (or not): the decorator around a call that fails
+
+`DynInv ext m` is the state between two calls (invariant, order bijection, counts exact for the
+ledger `ext`, flag cleared, no schedule, at least two variables); it does not say whether
+reordering is enabled, so every theorem below covers both. `DynKept ext m m'`:
+`DynInv ext m'` ∧ enabled iff it was ∧ same declared names ∧ every held reference still a member
+with the same function of the variable names ∧ same roots. -/
+
+/-- C17, GENERIC (the failure counterpart of `C09_decorator_transparent`): for any body `f` that,
+inside a context, in every state satisfying the invariant, returns a documented result, or is
+aborted by a reordering request, or raises another exception — always having only added nodes —
+the decorated call from `DynInv ext m` with the operands held, whatever it returns or raises:
+(1) the exception is never the internal signal; (2) the final state is `DynInv ext m'`, also when
+the failure happens in the SECOND attempt after sifting; (3) reordering is enabled afterwards iff
+it was (F11); (4) same declared names; (5) every held reference is a member with the same
+function by name; (6) `roots` unchanged; and a returned result is the documented one. -/
+theorem C17_rejected_dyn {α} (ext : Nat → Nat) (f : M α) (ops : List Int)
+    (Pre : Tbl → Prop) (Doc : Tbl → α → Tbl → Prop)
+    (hbody : ∀ m0 : Mgr, Inv m0 → m0.ctx = true → OrderOK m0.tbl → Pre m0.tbl →
+      (∀ u ∈ ops, m0.tbl.Mem u) → OutcomeE m0 (fun r m1 => Doc m0.tbl r m1.tbl) (f m0))
+    (hpre : ∀ t t', Bridge ops t t' → Pre t → Pre t')
+    (hdoc : ∀ t t' r t'', Bridge ops t t' → Pre t → Doc t' r t'' → Doc t r t'')
+    (m : Mgr) (hD : DynInv ext m) (hops : ∀ u ∈ ops, HeldX ext u) (hpre0 : Pre m.tbl) :
+    DynResult ext Doc m (tryToReorder f m) ∧
+    (tryToReorder f m).1 ≠ .error .needsReordering ∧ DynKept ext m (tryToReorder f m).2 :=
+  have h := tryToReorder_rejected ext (siftContract ext) f ops Pre Doc hbody hpre hdoc m hD hops hpre0
+  ⟨h, h.kept⟩
+
+/-- non-vacuity of `C17_rejected_dyn`: the body of `ite` with held operands meets its hypotheses
+(two-outcome specification `iteF_out`, seen as a three-outcome one) -/
+example (ext : Nat → Nat) (m : Mgr) (hD : DynInv ext m) (g u v : Int) (hg : HeldX ext g)
+    (hu : HeldX ext u) (hv : HeldX ext v) : DynResult ext (IteDoc g u v) m (ite g u v m) := by
+  refine (C17_rejected_dyn ext (iteRaw g u v) [g, u, v] (fun _ => True) (IteDoc g u v)
+    ?_ (fun _ _ _ _ => trivial) ?_ m hD ?_ trivial).1
+  · intro m0 hI0 _ _ _ hmem
+    rw [iteRaw_eq]
+    refine ((iteF_out (m0.nvars + 2) m0 g u v hI0 (hmem g (by simp)) (hmem u (by simp))
+      (hmem v (by simp)) (by omega)).mono ?_).toE
+    intro r m1 _ hp
+    refine ⟨hp.mem, fun σ => ?_⟩
+    have hl : m1.tbl.l2v = m0.tbl.l2v := hp.frame.l2v
+    unfold denN Tbl.lift Tbl.nameOf
+    rw [hl, hp.den]
+  · intro t t' r t'' hB _ hd
+    refine ⟨hd.1, fun σ => ?_⟩
+    rw [hd.2 σ, (hB.ops g (by simp)).2 σ, (hB.ops u (by simp)).2 σ, (hB.ops v (by simp)).2 σ]
+  · intro w hw
+    simp only [List.mem_cons, List.not_mem_nil, or_false] at hw
+    rcases hw with rfl | rfl | rfl
+    · exact hg
+    · exact hu
+    · exact hv
+
+/-- C17, generic, for bodies that accept ARBITRARY arguments (`TotE`: whatever they return or
+raise, only nodes were added and the signal comes only from an armed context) -/
+theorem C17_total_dyn {α} (ext : Nat → Nat) (f : M α)
+    (hbody : ∀ m0 : Mgr, Inv m0 → m0.ctx = true → OrderOK m0.tbl → TotE m0 (f m0))
+    (m : Mgr) (hD : DynInv ext m) : DynTotal ext m (tryToReorder f m) :=
+  tryToReorder_total_dyn ext (siftContract ext) f hbody m hD
+
+/-- C17: the path on which defect F11 lived — first attempt aborted by a request, sifting, the
+retry REJECTED: the exception of the retry reaches the caller and `_last_len` is re-armed -/
+theorem C17_retry_rejected_path {α} (f : M α) (m m1 m3 m4 : Mgr) (e : Err) (hctx : m.ctx = false)
+    (h1 : f { m with ctx := true } = (.error .needsReordering, m1))
+    (h2 : reorder none { m1 with ctx := m.ctx, lastLen := none } = (.ok (), m3))
+    (h3 : f { m3 with ctx := true } = (.error e, m4)) (hne : e ≠ .needsReordering) :
+    tryToReorder f m =
+      (.error e, { m4 with ctx := m3.ctx, lastLen := some (Gen.growthFactor * m3.len) }) :=
+  tryToReorder_retry_err f m m1 m3 m4 e hctx h1 h2 h3 hne
+
+/-- C17 `ite` on ARBITRARY integers (unknown or foreign nodes) -/
+theorem C17_ite_dyn (ext : Nat → Nat) (m : Mgr) (hD : DynInv ext m) (g u v : Int) :
+    DynTotal ext m (ite g u v m) :=
+  ite_total_dyn ext (siftContract ext) m hD g u v
+
+/-- C17 `apply` with ANY operator string, arity and operands, quantifier aliases included -/
+theorem C17_apply_dyn (ext : Nat → Nat) (m : Mgr) (hD : DynInv ext m) (op : String) (u : Int)
+    (v w : Option Int) : DynTotal ext m (apply op u v w m) :=
+  apply_total_dyn ext (siftContract ext) m hD op u v w
+
+/-- C17 `var` with ANY (undeclared) name -/
+theorem C17_var_dyn (ext : Nat → Nat) (m : Mgr) (hD : DynInv ext m) (name : String) :
+    DynTotal ext m (var name m) :=
+  var_total_dyn ext (siftContract ext) m hD name
+
+/-- C17 `quantify` / `exist` / `forall` with ANY node and ANY names or levels -/
+theorem C17_quantify_dyn (ext : Nat → Nat) (m : Mgr) (hD : DynInv ext m) (u : Int)
+    (qvars : List Key) (fa : Bool) : DynTotal ext m (quantify u qvars fa m) :=
+  quantify_total_dyn ext (siftContract ext) m hD u qvars fa
+
+/-- C17 `cofactor` with ANY node and ANY dictionary -/
+theorem C17_cofactor_dyn (ext : Nat → Nat) (m : Mgr) (hD : DynInv ext m) (u : Int)
+    (values : List (Key × Bool)) : DynTotal ext m (cofactor u values m) :=
+  cofactor_total_dyn ext (siftContract ext) m hD u values
+
+/-- C17 `compose` with ANY node and ANY dictionary (undeclared names, unknown nodes) -/
+theorem C17_compose_dyn (ext : Nat → Nat) (m : Mgr) (hD : DynInv ext m) (f : Int)
+    (varSub : List (String × Int)) : DynTotal ext m (compose f varSub m) :=
+  compose_total_dyn ext (siftContract ext) m hD f varSub
+
+/-- C17 `rename` with ANY node and ANY renaming -/
+theorem C17_rename_dyn (ext : Nat → Nat) (m : Mgr) (hD : DynInv ext m) (u : Int)
+    (dvars : List (String × String)) : DynTotal ext m (rename u dvars m) :=
+  rename_total_dyn ext (siftContract ext) m hD u dvars
+
+/-- C17 `let` in its three homogeneous forms, ANY node and dictionary -/
+theorem C17_let_dyn (ext : Nat → Nat) (m : Mgr) (hD : DynInv ext m) (d : LetArg) (u : Int) :
+    DynTotal ext m (letOp d u m) :=
+  letOp_total_dyn ext (siftContract ext) m hD d u
+
+/-- C17 `cube` with ANY names (an undeclared name after some literals were already conjoined) -/
+theorem C17_cube_dyn (ext : Nat → Nat) (m : Mgr) (hD : DynInv ext m)
+    (dvars : List (String × Bool)) : DynTotal ext m (cube dvars m) :=
+  cube_total_dyn ext (siftContract ext) m hD dvars
+
+/-- C17 `copy_bdd(u, from_bdd, to_bdd)` into the manager: ANY source table (not even well
+formed), ANY node (foreign to the source, variables not declared in the target) -/
+theorem C17_copy_bdd_dyn (ext : Nat → Nat) (m : Mgr) (hD : DynInv ext m) (src : Tbl) (u : Int) :
+    DynTotal ext m (copyBdd src u m) :=
+  copyBdd_total_dyn ext (siftContract ext) m hD src u
+
+/-- C17 `add_expr` on ANY text: syntax error at any token, undeclared variable, unknown `@n` -/
+theorem C17_add_expr_dyn (ext : Nat → Nat) (m : Mgr) (hD : DynInv ext m) (s : String) :
+    DynTotal ext m (addExpr s m) :=
+  addExpr_total_dyn ext (siftContract ext) m hD s
+
+/-- C17: what `DynTotal` gives the user, spelled out — the six points of the generic theorem -/
+theorem C17_dyn_means {α} (ext : Nat → Nat) (m : Mgr) (res : Except Err α × Mgr)
+    (h : DynTotal ext m res) :
+    res.1 ≠ .error .needsReordering ∧
+    (Inv res.2 ∧ OrderOK res.2.tbl ∧ RefExact res.2 ext ∧ res.2.ctx = false ∧ res.2.sched = []) ∧
+    (res.2.lastLen.isSome = m.lastLen.isSome) ∧
+    (∀ s, res.2.tbl.vars.contains s = m.tbl.vars.contains s) ∧
+    (∀ w, HeldX ext w → res.2.tbl.Mem w ∧ ∀ σ, denN res.2.tbl w σ = denN m.tbl w σ) ∧
+    res.2.roots = m.roots :=
+  ⟨h.1, ⟨h.2.inv.inv, h.2.inv.order, h.2.inv.refs, h.2.inv.ctx, h.2.inv.sched⟩, h.2.enabled,
+   h.2.names, h.2.held, h.2.roots⟩
+
+/-- C17, "subsequent operations behave normally" with reordering enabled: after ANY call that
+left `DynTotal` (in particular any rejected call above), the next `ite` on held operands returns
+the if-then-else of the operands AS THEY WERE BEFORE the rejected call, by name — and that call
+again leaves a state in which every theorem applies -/
+theorem C17_error_then_normal_dyn {α} (ext : Nat → Nat) (m : Mgr) (res : Except Err α × Mgr)
+    (h : DynTotal ext m res) (g u v : Int) (hg : HeldX ext g) (hu : HeldX ext u) (hv : HeldX ext v) :
+    ∃ r m'', ite g u v res.2 = (.ok r, m'') ∧ DynInv ext m'' ∧ m''.tbl.Mem r ∧
+      (m''.lastLen.isSome = m.lastLen.isSome) ∧
+      (∀ σ, denN m''.tbl r σ = if denN m.tbl g σ then denN m.tbl u σ else denN m.tbl v σ) ∧
+      (∀ w, HeldX ext w → m''.tbl.Mem w ∧ ∀ σ, denN m''.tbl w σ = denN m.tbl w σ) := by
+  obtain ⟨r, m'', he, hp⟩ := ite_transparent ext (siftContract ext) res.2 h.2.inv g u v hg hu hv
+  refine ⟨r, m'', he, hp.inv, hp.doc.1, by rw [hp.enabled, h.2.enabled], fun σ => ?_, fun w hw => ?_⟩
+  · rw [hp.doc.2 σ, (h.2.held g hg).2 σ, (h.2.held u hu).2 σ, (h.2.held v hv).2 σ]
+  · exact ⟨(hp.held w hw).1, fun σ => by rw [(hp.held w hw).2 σ, (h.2.held w hw).2 σ]⟩
+
+/-! ### non-vacuity: `exDyn` (variables a, b; nodes 2 = a, 3 = b, 4 = a ∧ b held by the user;
+reordering enabled, `_last_len = 1`, a request due at the next `find_or_add`) -/
+
+example : DynInv exExt exDyn ∧ exDyn.lastLen.isSome = true := ⟨exDyn_dynInv, rfl⟩
+
+/-- rejected before anything is built: unknown node, unknown operator, undeclared variable -/
+example : raisedErr (ite 7 4 (-1) exDyn).1 = some .key ∧
+    raisedErr (apply "nand" 4 (some 4) none exDyn).1 = some .value ∧
+    raisedErr (var "nosuch" exDyn).1 = some .value ∧
+    raisedErr (quantify 4 [Key.name "nosuch"] false exDyn).1 = some .value := by
+  decide +kernel
+
+/-- rejected AFTER the reordering request was served — the failure happens in the retry: in the
+first attempt `cube(a, nosuch)` creates the node of `a` (the request fires: abort, sifting), the
+second attempt is rejected at `nosuch`; reordering is still enabled, the flag is cleared -/
+example : raisedErr (cubeBody [("a", true), ("nosuch", true)] { exDyn with ctx := true }).1 =
+      some .needsReordering ∧
+    raisedErr (cube [("a", true), ("nosuch", true)] exDyn).1 = some .value ∧
+    (cube [("a", true), ("nosuch", true)] exDyn).2.lastLen.isSome = true ∧
+    (cube [("a", true), ("nosuch", true)] exDyn).2.ctx = false := by
+  decide +kernel
+
+example : DynTotal exExt exDyn (cube [("a", true), ("nosuch", true)] exDyn) :=
+  C17_cube_dyn exExt exDyn exDyn_dynInv _
+
+/-- a syntax error with reordering enabled -/
+example : (raisedErr (addExpr "a /\\ b /\\" exDyn).1).isSome = true ∧
+    raisedErr (addExpr "a /\\ b /\\" exDyn).1 ≠ some .needsReordering := by
+  decide +kernel
+
+example : HeldX exExt 4 ∧ HeldX exExt (-1) := ⟨exExt_held4, Or.inl rfl⟩
+
+/-! ## the other kinds of rejected call named in the property -/
+
+/-- C17 (conflicting level): `add_var(name, level)` that raises — the name exists at another
+level, the level is used by another name, the level is negative — changes NOTHING
+(validation before mutation; the two refusals are `C14_add_var_refuses`) -/
+theorem C17_add_var_rejected (m m' : Mgr) (var : String) (level : Option Int) (e : Err)
+    (h : addVar var level m = (.error e, m')) : m' = m ∧ e ≠ .needsReordering := by
+  unfold addVar at h
+  simp only [bind, M.bind', M.get, pure] at h
+  cases hv : m.tbl.vars[var]? with
+  | some vl =>
+    simp only [hv] at h
+    cases level with
+    | none => simp [M.pure'] at h
+    | some l =>
+      by_cases hl : l = (vl : Int)
+      · simp [M.pure', hl] at h
+      · simp [M.throw, hl] at h
+        exact ⟨h.2.symm, by rw [← h.1]; simp⟩
+  | none =>
+    simp only [hv] at h
+    by_cases hneg : level.getD (m.nvars : Int) < 0
+    · simp [hneg, M.bind', M.throw] at h
+      exact ⟨h.2.symm, by rw [← h.1]; simp⟩
+    · simp only [hneg, if_false] at h
+      cases hl : m.tbl.l2v[(level.getD (m.nvars : Int)).toNat]? with
+      | some x =>
+        simp [hl, M.throw] at h
+        exact ⟨h.2.symm, by rw [← h.1]; simp⟩
+      | none => simp [hl, M.bind', M.set, M.pure'] at h
+
+/-- the two documented refusals do occur (C14) -/
+theorem C17_add_var_conflict (m : Mgr) (var : String) :
+    (∀ (i : Nat) (l : Int), m.tbl.vars[var]? = some i → l ≠ i →
+      addVar var (some l) m = (.error .value, m)) ∧
+    (∀ (l : Nat) (other : String), m.tbl.vars[var]? = none → m.tbl.l2v[l]? = some other →
+      addVar var (some (l : Int)) m = (.error .value, m)) :=
+  C14_add_var_refuses m var
+
+example : addVar "a" (some 1) exM = (.error .value, exM) :=
+  (C17_add_var_conflict exM "a").1 0 1 (by decide) (by decide)
+
+/-- C17 (variable still in use, unknown variable): `undeclare_vars` that raises changes NOTHING
+(`C14_undeclare`: it either succeeds or raises `ValueError` leaving the manager as it was) -/
+theorem C17_undeclare_rejected (m m' : Mgr) (vrs : List String) (hI : Inv m) (hO : OrderOK m.tbl)
+    (e : Err) (h : undeclareVars vrs m = (.error e, m')) : m' = m ∧ e = .value := by
+  have := C14_undeclare m vrs hI hO
+  rw [h] at this
+  exact ⟨this.2, this.1⟩
+
+example : undeclareVars ["b", "a"] undeclExM = (.error .value, undeclExM) :=
+  C14_undeclare_refuses _ _ ⟨"a", by simp, Or.inr undeclExM_a⟩
+
+/-- C17 (bad order, `swap`): `swap(x, y, levels)` whose levels are not two adjacent valid levels,
+or with an undeclared name, raises `ValueError` and changes NOTHING -/
+theorem C17_swap_bad_args (m : Mgr) :
+    (∀ x y : Int, ¬ (0 ≤ x ∧ x < m.nvars ∧ 0 ≤ y ∧ y < m.nvars ∧ (y - x = 1 ∨ x - y = 1)) →
+      swap (.level x) (.level y) true m = (.error .value, m)) ∧
+    (∀ (s : String) (ya : VarOrLevel), m.tbl.vars[s]? = none →
+      swap (.name s) ya true m = (.error .value, m)) :=
+  ⟨fun x y h => swap_given_bad_levels m x y h, fun s ya h => swap_unknown_name m s ya h⟩
+
+/-- C17 (bad order, the public `swap(x, y)`): it runs the full collection BEFORE validating its
+arguments, so a refused call leaves the state of `collect_garbage()`: good again for the same
+ledger, everything the user holds kept with its meaning (`GcFullPost`, C06) -/
+theorem C17_swap_public_bad_args (m : Mgr) (ext : Nat → Nat) (h : GoodState m ext) (x y : Int)
+    (hbad : ¬ (0 ≤ x ∧ x < m.nvars ∧ 0 ≤ y ∧ y < m.nvars ∧ (y - x = 1 ∨ x - y = 1))) :
+    ∃ m', swap (.level x) (.level y) false m = (.error .value, m') ∧ GcFullPost m ext m' ∧
+      GoodState m' ext :=
+  swap_public_rejected m ext h x y hbad
+
+/-- C17 (bad order, `reorder(bdd, order)`): an order that does not list every variable raises
+`ValueError` and changes NOTHING -/
+theorem C17_reorder_bad_order (m : Mgr) (order : List (String × Int)) (h : m.nvars ≠ order.length) :
+    reorder (some order) m = (.error .value, m) :=
+  reorder_bad_length m order h
+
+example : swap (.level 0) (.level 2) true exM = (.error .value, exM) :=
+  (C17_swap_bad_args exM).1 0 2 (by decide)
+example : reorder (some [("a", 0)]) exM = (.error .value, exM) :=
+  C17_reorder_bad_order exM _ (by decide)
+
+/-! ## unreadable files — what is and what is not a theorem
+
+* A file that cannot be opened or unpickled (`OSError`, `UnpicklingError`, JSON syntax) fails in
+  Python BEFORE any method of the manager runs; the models of `load` (`loadPickle`, `loadJson`,
+  `loadDddmp`) take the file's CONTENT as argument, so this kind of failure has no counterpart in
+  the model: nothing to prove, the correspondence check (C12: "unreadable / wrong-extension
+  files") observes the manager after the exception.
+* A wrong file extension is refused by a function that does not see the manager at all
+  (`bddLoadKind`, `autorefLoadKind` : `String → Except Err FileKind`): stated below.
+* `dddmp.load` builds a FRESH manager (`loadDddmp : DddmpFile → Except Err Mgr`): a refused file
+  (`C16_unsupported_varinfo`) leaves no manager behind.
+* A readable file with ILL-FORMED content loaded into an existing manager (`loadPickle` /
+  `loadJson` failing half-way): NOT covered by any existing theorem (C12 is proved for
+  well-formed files only); `loadVars` declares the file's variables before the nodes are read,
+  so "nothing changed" is false there, and with `levels=True` the declared levels may leave a
+  gap (F7), so `OrderOK` cannot be claimed in general. -/
+
+/-- C17 (wrong file type): the refusal of `load` for a name that is not `*.p` (`*.json`) is
+decided by the file name alone -/
+theorem C17_load_wrong_filetype (filename : String) :
+    (filename.toLower.endsWith ".p" = false → bddLoadKind filename = .error .value) ∧
+    (filename.toLower.endsWith ".p" = false → filename.toLower.endsWith ".json" = false →
+      autorefLoadKind filename = .error .value) := by
+  refine ⟨fun h => ?_, fun h1 h2 => ?_⟩
+  · unfold bddLoadKind; simp [h]
+  · unfold autorefLoadKind; simp [h1, h2]
 
 end DD
